@@ -90,3 +90,50 @@ def r2(cx):
         else:
             cx.violation(k, "query-side-write:%s" % c["callee"].rsplit("::", 1)[1], "%s: %s writes to the object store from the query side" % (c["sp"], p), [c["sp"]])
     cx.floor("object-store write delegations in the caching store", n, 6)
+
+
+QROOTS = ("query::", "<query::", "api::query::", "<api::query::", "api::grpc::FlightSqlGrpcService", "<api::grpc::FlightSqlGrpcService")
+MUT_ENTRY = ("ingester::Ingester::write", "ingester::Ingester::flush", "ingester::Ingester::append_to_buffer", "compactor::Compactor::", "sharding::splitter::ShardSplitter::",
+             "ingester::wal::WriteAheadLog::append", "ingester::wal::WriteAheadLog::truncate")
+
+
+@rule("C11", "R3", "nothing that mutates is reachable from a query interface: in the crate's call graph (trait-object calls expanded over the crate's impls) no function of the SQL / Flight SQL / "
+      "Prometheus / streaming query paths reaches a mutating MetadataClient method, the ingest / flush / WAL-write / compaction / split entry points, or an object-store write outside the "
+      "caching store's own delegations")
+def r3(cx):
+    prog = cx.prog
+    roots = sorted(k for k in prog.calls if k.startswith(QROOTS))
+    if not cx.floor("functions of the query interfaces", len(roots), 300):
+        return
+    R = prog.reachable_from(roots)
+    methods = sorted({m for (t, m) in prog.impls if t == "metadata::client::MetadataClient"})
+    cx.floor("MetadataClient methods with impls", len(methods), 20)
+    mut = [m for m in methods if not m.startswith(("get_", "list_", "has_", "load_"))]
+    bad = []
+    for k in sorted(R):
+        if "MetadataClient>::" in k and "::{closure" not in k and k.rsplit("::", 1)[1] in mut:
+            bad.append((k, "the catalog-mutating %s" % k.rsplit("::", 1)[1]))
+        elif k.startswith(MUT_ENTRY) and "::{closure" not in k:
+            bad.append((k, "the write-side entry %s" % k))
+    for k in sorted(R):
+        if named_parent(k).startswith("<query::cached_store::CachedObjectStore as object_store::ObjectStore>::"):
+            continue
+        for c in prog.calls[k]["calls"]:
+            if not c.get("cleanup") and WRITE_RX.match(c["callee"]):
+                bad.append((k, "an object-store %s at %s" % (c["callee"].rsplit("::", 1)[1], c["sp"])))
+    if not bad:
+        cx.passed("<program>", "query-paths-reach-no-mutator", [], "%d query-side functions, %d reachable functions, %d mutating catalog methods excluded" % (len(roots), len(R), len(mut)))
+        return
+    seen = set()
+    for k, what in bad:
+        if k in seen:
+            continue
+        seen.add(k)
+        path = None
+        for r in roots:
+            p = prog.call_path(r, k)
+            if p and (path is None or len(p) < len(path)):
+                path = p
+                if len(p) <= 3:
+                    break
+        cx.violation(path[0] if path else k, "query-path-reaches-mutator:%s" % named_parent(k).rsplit("::", 1)[1], "a query interface reaches %s: %s" % (what, " -> ".join(named_parent(x) for x in (path or [k]))), [])
